@@ -243,11 +243,14 @@ def run(pid, tier):
         tie_names = []
         for k, st in enumerate(starts):
             nreg = sum(1 for c in st if c['op'] == 'bar')
-            nm = mc_cfg(specdir, 'MC_tie%d' % k, tie['nb'], tie['bars'], nreg + tie['maxh_extra'], 0, tie['mode'],
+            nath = sum(1 for c in st if c['op'] == 'add')
+            # in the accepted-calls-only modes nobody can register after the start: size the alphabet to the start
+            nb_ = tie['nb'] if tie['mode'] == 'all' else nath
+            nm = mc_cfg(specdir, 'MC_tie%d' % k, nb_, tie['bars'], nreg + tie['maxh_extra'], 0, tie['mode'],
                         tie['emit'], invs, starts=[st])
             tie_names.append(nm)
-            runs.append((specdir, nm, dict(workers=2, timeout=3000, heap='3g')))
-        nsim = {'C02': 40, 'C03': 120, 'C08': 40}[pid] * (1 if quick else 6)
+            runs.append((specdir, nm, dict(workers=4 if nath >= 3 and k in (0, 4) else 2, timeout=3000, heap='3g')))
+        nsim = {'C02': 40, 'C03': 60, 'C08': 30}[pid] * (1 if quick else 8)
         sim_names = []
         for k in range(4):
             nm = mc_cfg(specdir, 'MC_sim%d' % k, 4, [100, 105, 110, 115, 120], 7, 60, 'orderly', 0,
